@@ -8,7 +8,7 @@ from vlib import run_lines, VERIF
 import rtlib
 
 NSLOTS = 8
-SIZES_EDGE = [0, 1, 2, 3, 7, 8, 9, 15, 16, 17, 255, 256, 4095, 4096, 65535, 65536, 65537, (1 << 20) - 1, 1 << 20]
+SIZES_EDGE = [0, 1, 2, 3, 4, 5, 6, 7, 8, 9, 15, 16, 17, 33, 255, 256, 257, 1025, 4095, 4096, 65535, 65536, 65537, (1 << 20) - 1, 1 << 20]
 
 
 def gen_size(rng, alog):
@@ -73,6 +73,22 @@ def gen_history(rng, maxlen, stats):
     return " ".join(ops)
 
 
+ODD_SIZES = [1, 2, 3, 4, 5, 6, 7, 9, 17, 33, 257, 4097]
+
+
+def grid_histories():
+    """Deterministic stream: every layout whose size is NOT a multiple of the word size x every alignment 2^0..2^16,
+    for Cleanup::new + drop, Cleanup::new + forget, and cabi_realloc alloc / grow / shrink / cabi_dealloc.  The
+    checking allocator puts guard bytes directly before and after every block (sizes are not rounded up), so a write
+    outside `[ptr, ptr+size)` — e.g. by the poison loop of Cleanup::drop — changes a canary."""
+    out = []
+    for alog in range(17):
+        for size in ODD_SIZES:
+            out.append(f"n:{size}:{alog} x:0 n:{size}:{alog} f:1 r:0:{alog}:{size} r:0:{alog}:{size + 9} "
+                       f"r:0:{alog}:{max(1, size - 1)} r:0:{alog}:{size} d:0")
+    return out
+
+
 def gen_outside(rng):
     """A separate stream OUTSIDE the documented precondition: a valid history followed by one request that
     resizes a non-empty block to zero.  What the code does then is recorded in the evidence, never judged."""
@@ -99,6 +115,8 @@ def run(c):
     if os.path.exists(cp):
         reqs += [l.rstrip("\n") for l in open(cp) if l.strip() and not l.startswith("#")]
     if c.replay and "witness" in c.replay: reqs.insert(0, c.replay["witness"]["request"])
+    grid = grid_histories()
+    reqs += grid
     ncorpus = len(reqs)
     reqs += [gen_history(c.rng, maxlen, stats) for _ in range(n)]
     if not impl:
@@ -114,6 +132,14 @@ def run(c):
             if verdict == "spec=ok":
                 continue
             classes = sorted({f.split("@")[0] for f in verdict.split(":", 1)[1].split(",")}) if verdict.startswith("spec=fail:") else ["missing"]
+            if "write-outside-allocation" in o:
+                # the guard bytes around a block changed: the end token names the first changed byte
+                detail = o.rsplit("write-outside-allocation", 1)[1]
+                c.spec_violation("realloc-write-outside-allocation",
+                                 "an allocation entry point wrote outside the block it owns (guard bytes before/after the block changed; "
+                                 "offset relative to the block start and block size: " + detail + ")",
+                                 {"request": r, "impl": o, "verdict": verdict, "first_changed_byte": detail})
+                continue
             for k in classes:
                 if k == "shrink-to-zero":
                     # cannot happen: the generator and the corpus stay inside the documented precondition
@@ -144,13 +170,16 @@ def run(c):
     for r, o in list(zip(reqs, iout))[ncorpus:ncorpus + 3]:
         c.sample({"history": r, "impl": o})
     c.cov["input_distribution"] = dict(sorted(stats.items()))
-    c.cov["histories"] = {"corpus": ncorpus, "seeded": n, "max_ops": maxlen}
+    c.cov["histories"] = {"corpus": ncorpus - len(grid), "grid_odd_sizes_x_alignments": len(grid), "seeded": n, "max_ops": maxlen}
+    c.cov["guard_bytes"] = ("16 canary bytes directly before and after every block handed out by the checking allocator (size not rounded up, "
+                            "requested alignment kept), verified at every dealloc/realloc; grid: sizes %s x alignments 2^0..2^16" % ODD_SIZES)
     c.cov["search"] = ("ReallocSpec.stepOk/endOk (Lean, spec side) evaluated on the implementation's observations for every "
                        "history of this run (all inside the documented precondition of cabi_realloc)")
     c.assumptions += [
         "the global allocator is a parameter: theorems assume the GlobalAlloc contract (Lawful A); the run uses std's System allocator behind a checking wrapper",
         "allocation failure (null from the allocator) is modelled as abort and not exercised on the real code (handle_alloc_error aborts the process)",
         "domain: a non-empty block is never resized to zero — the precondition cabi_realloc documents (debug_assert_ne!, `histPre` in the model); canonical-ABI hosts do not issue such a request; a separate stream records (without judging) what the code does there",
+        "that the poison loop of Cleanup::drop (and every other write of the entry points) stays inside [ptr, ptr+size) is checked on the real code by the guard-byte monitor; the Lean theorem cleanup_drop_writes_within_block is about the model's loop bound",
         "pointers/sizes are Nat (no usize overflow); alignments are powers of two 2^0..2^16, sizes 0..2^20 as in the property",
         "`cabi_realloc` and `cabi_dealloc` are compiled from the working-tree text cut out by harness/rt-native/build.rs (the item is cfg'd out / a generator template natively); Cleanup and the wrapper are linked/included unchanged",
         "native x86-64 only (pointer width 8)",
